@@ -786,6 +786,9 @@ func runRows(e *core.Env, prop string) error {
 		node.Close()
 	}
 	if prop == "C11" {
+		if err := runInsertBatches(e); err != nil {
+			return err
+		}
 		// the whole path: JSON-RPC node -> jrpc2.Client.Get -> Integration.Insert -> COPY rows, for log,
 		// transaction and trace declarations (two logs and two trace actions with distinct values in
 		// every transaction); every stored column is compared with the node's own value of the field
